@@ -167,13 +167,13 @@ impl Assembler for GradSliceAssembler {
     }
     fn build_abs(&mut self, out_reg: u8, lhs_reg: u8) {
         dynasm!(self.0.ops
-            // Store 0.0 to xmm0, for comparisons
-            ; vpxor xmm0, xmm0, xmm0
+            // Test the sign bit of the value (not `< 0.0`), so that
+            // `abs(-0.0)` is `+0.0` like in every other evaluator
+            ; vmovd eax, Rx(reg(lhs_reg))
+            ; test eax, eax
+            ; js >N
 
-            ; vcomiss Rx(reg(lhs_reg)), xmm0
-            ; jb >N
-
-            // Fallthrough: non-negative (or NaN) input
+            // Fallthrough: input without the sign bit set
             ; vmovups Rx(reg(out_reg)), Rx(reg(lhs_reg))
             ; jmp >E
 
